@@ -177,14 +177,27 @@ def axang(chk, prog):
                           eq(np.array([R()[2, 1] - R()[1, 2], R()[0, 2] - R()[2, 0], R()[1, 0] - R()[0, 1]], dtype=object), 2 * P.sin(t) * u, "antisymmetric part"),
                           eq(R().T @ R(), I(3), "R^T R")), construct="from_axisangle", **kw)
 
-    def roundtrip():
-        obj = it.make_obj(DCM + "::DCM", data=R(), A=R())
-        axis, angle = it.run(ta, [], self_obj=obj)
-        a = args_of(angle, "arccos")
-        if not a or a[0] != 1:
-            return (None, "angle is not an arccos value")
-        return all_of(eq(a[1][0], P.cos(t), "cos(angle)"), eq(axis, u, "axis"))
-    chk.ob("AXANG.roundtrip", ta.ref, "to_axisangle(from_axisangle(u, t)) == (u, arccos(cos t))", roundtrip, module=DCM, function="DCM.to_axisangle", construct="axis-angle round trip (DCM)", line=ta.node.lineno)
+    from sa.lib import enumerate_paths
+
+    def run_ta(oracle):
+        it_ = Interp(prog, oracle=oracle)
+        Rm = to_obj(it_.run(fa, [ClassRef(prog.cls(DCM + "::DCM")), u.copy(), t]))
+        obj = it_.make_obj(DCM + "::DCM", data=Rm, A=Rm)
+        return it_.run(ta, [], self_obj=obj)
+    # every decision path of to_axisangle (small-angle / near-pi / pivot arms, if any) must return the axis and angle the matrix was built from
+    for decisions, res in enumerate_paths(run_ta, max_paths=24):
+        label = ", ".join("%s->%s" % (("argmax" if c.op == "argmax" else "%s %s %s" % (str(c.lhs)[:28], c.op, str(c.rhs)[:10])), a_) for c, a_ in decisions) or "unconditional"
+
+        def roundtrip(res=res, label=label):
+            if isinstance(res, Exception):
+                raise res
+            axis, angle = res
+            a = args_of(angle, "arccos")
+            if not a or a[0] != 1:
+                return (None, "angle is not an arccos value")
+            return all_of(eq(a[1][0], P.cos(t), "cos(angle)"), eq(axis, u, "axis [path %s]" % label))
+        chk.ob("AXANG.roundtrip", ta.ref + "::path " + label, "to_axisangle(from_axisangle(u, t)) == (u, arccos(cos t)) on the path [%s]" % label, roundtrip, module=DCM,
+               function="DCM.to_axisangle", construct="axis-angle round trip (DCM) [%s]" % ("unconditional" if not decisions else "%d decisions: %s" % (len(decisions), label[:60])), line=ta.node.lineno)
     # quaternion side
     q = np.concatenate([[P.cos(t / 2)], u * P.sin(t / 2)])
     for ref, caller in ((QUAT + "::Quaternion.to_axang", lambda it_: it_.run(prog.func(QUAT + "::Quaternion.to_axang"), [], self_obj=quat_obj(it_, q))),
